@@ -17,13 +17,14 @@ pub mod c14;
 pub mod c15;
 pub mod c16;
 pub mod c17;
+pub mod c18;
 pub mod c19;
 pub mod c20;
 
 pub type RunFn = fn(&RunCfg, Option<&str>) -> i32;
 
 pub fn all() -> Vec<(&'static str, RunFn)> {
-    vec![("C03", c03::run as RunFn), ("C16", c16::run as RunFn), ("C05", c05::run as RunFn), ("C02", c02::run as RunFn), ("C20", c20::run as RunFn), ("C09", c09::run as RunFn), ("C10", c10::run as RunFn), ("C08", c08::run as RunFn), ("C07", c07::run as RunFn), ("C12", c12::run as RunFn), ("C15", c15::run as RunFn), ("C13", c13::run as RunFn), ("C14", c14::run as RunFn), ("C19", c19::run as RunFn), ("C06", c06::run as RunFn), ("C04", c04::run as RunFn), ("C17", c17::run as RunFn), ("C01", c01::run as RunFn)]
+    vec![("C03", c03::run as RunFn), ("C16", c16::run as RunFn), ("C05", c05::run as RunFn), ("C02", c02::run as RunFn), ("C20", c20::run as RunFn), ("C09", c09::run as RunFn), ("C10", c10::run as RunFn), ("C08", c08::run as RunFn), ("C07", c07::run as RunFn), ("C12", c12::run as RunFn), ("C15", c15::run as RunFn), ("C13", c13::run as RunFn), ("C14", c14::run as RunFn), ("C19", c19::run as RunFn), ("C06", c06::run as RunFn), ("C04", c04::run as RunFn), ("C17", c17::run as RunFn), ("C01", c01::run as RunFn), ("C18", c18::run as RunFn)]
 }
 
 /// Entry point of child processes (`harness <ID> --child <seed>`).
